@@ -370,8 +370,11 @@ func vcRunC10(t *vcTrial) {
 			// a stale call on a closed connection, while the others are live
 			vc := pool.dead[r.intn(len(pool.dead))]
 			call := calls[r.intn(len(calls))]
-			if call.Name == "Close" && !vc.inner.isCloseBy(user) && atomic.LoadInt32(&vc.cbRan) == 0 {
-				// first user Close after a peer close: legitimately completes the teardown
+			// "API calls on it after it was closed": the teardown (peer FIN/RST is processed by the
+			// poller asynchronously) must be complete - a call racing with it is C07/C08's subject
+			// (known findings D21/D22), not a stale call
+			if !vcWaitPoint(mark, vpCloseCbDone, uintptr(unsafe.Pointer(vc.inner)), 2*time.Second) {
+				continue
 			}
 			res := make(chan interface{}, 1)
 			go func() {
